@@ -204,10 +204,10 @@ func (s *Set) Intersect(t Set) error {
 				continue
 			}
 			// TODO: Avoid the n^2 here.
-			if telem.max.lessThan(selem.min) || (telem.max.equal(selem.min) && telem.maxOpen) {
+			if telem.max.lessThan(selem.min) || (telem.max.equal(selem.min) && (telem.maxOpen || selem.minOpen)) {
 				continue // Not there yet.
 			}
-			if telem.min.greaterThan(selem.max) {
+			if telem.min.greaterThan(selem.max) || (telem.min.equal(selem.max) && (telem.minOpen || selem.maxOpen)) {
 				// No need to check further.
 				break
 			}
